@@ -33,7 +33,10 @@ RULE = ("part 1: for each of 12 scripted runs (plain Community, the same on a Tu
         "of virtual time. Non-trivial = at the cut the overlay had a pending request cache entry, a circuit / relay / exit "
         "entry, an open outside socket or a running non-periodic task. part 2: Hypothesis op lists (<= 40 ops) over "
         "register / replace / cancel / advance / shutdown with 3 names; non-trivial = a replace or a same-name "
-        "re-registration while the old task is still running. distinct = (scenario, cut) resp. op list.")
+        "re-registration while the old task is still running. part 3 (pex_retire): PexCommunity started and unloaded by "
+        "an introduction point itself under real ipv8_service.IPv8 instances that tick its walkers (1-3 introduction points x "
+        "seeder leaves / introduction point unloads its tunnel overlay / seeder vanishes x meeting time x seeds); non-trivial "
+        "= the retired Pex overlay knew a peer. distinct = (scenario, cut) resp. op list.")
 ASSUMPTIONS = [
     "application-level calls on the overlay after the unload request are not made (the property is about what the "
     "overlay does by itself)",
@@ -391,7 +394,104 @@ def run_tm_window_case(ctx: Ctx | None, case: dict) -> None:
         ctx.case(case, case["pending"] > 0, cls="tm_window")
 
 
+def run_pex_retire_case(ctx: Ctx | None, case: dict) -> None:
+    """
+    The shipped PexCommunity is started and unloaded by the library itself: an introduction point starts one per swarm
+    (walkers registered with the application's IPv8 service object) and unloads it when the last introduction circuit of
+    that swarm is gone. Real ipv8_service.IPv8 instances tick the walkers. After PexCommunity.unload() has completed the
+    node must not send another packet under the Pex prefix and the overlay must not run a task.
+    """
+    c = case
+    info = {"nt": False, "cls": "pex_retire/how%d" % c["how"]}
+
+    def fail(clause, site, msg):
+        raise Violation(clause, "pex_retire:" + site, msg, case)
+
+    async def main(loop):
+        import random
+
+        from ..tunnelsim import HiddenWorld
+        w = HiddenWorld(loop, 6, service="real")
+        insts = [nd.stub for nd in w.nodes]
+        try:
+            random.seed(c["seed"])
+            for nd, inst in zip(w.nodes, insts):
+                inst.overlays.append(nd.overlay)
+                await inst.start()
+            seeder, ih = w.nodes[0], b"\x35" * 20
+            seeder.overlay.join_swarm(ih, 1, lambda addr: None, seeding=True)
+            for _ in range(6):
+                try:
+                    await asyncio.wait_for(seeder.overlay.create_introduction_point(ih), 30.0)
+                except asyncio.TimeoutError:
+                    pass
+                await asyncio.sleep(1.0)
+                if len([nd for nd in w.nodes if nd.overlay.pex]) >= c["points"]:
+                    break
+            points = [(nd, pex) for nd in w.nodes for pex in nd.overlay.pex.values()]
+            if not points:
+                info["cls"] += "/no_pex"
+                return
+            # the Pex overlays of the swarm get to know each other (any peer may walk in at any time)
+            for nd, pex in points:
+                for other, _ in points:
+                    if other is not nd:
+                        pex.walk_to(other.address)
+            await asyncio.sleep(c["meet"])
+            done: dict = {}
+            for nd, pex in points:
+                def wrap(pex=pex, orig=pex.unload):
+                    async def unload():
+                        await orig()
+                        done[id(pex)] = (w.net.seq, loop.time())
+                    return unload
+                pex.unload = wrap()
+            had_peers = {id(pex): len(pex.get_peers()) for _, pex in points}
+            walkers = {id(pex): [type(s_).__name__ for s_, _ in nd.stub.strategies if s_.overlay is pex] for nd, pex in points}
+            how = c["how"]
+            if how == 0:
+                seeder.overlay.leave_swarm(ih)
+            elif how == 1:
+                for nd, _ in points:
+                    await nd.stub.unload_overlay(nd.overlay)
+            else:
+                # the seeder's host vanishes (its service's ticker would spin on a closed endpoint without ever sleeping)
+                insts[0].state_machine_task.cancel()
+                seeder.raw_endpoint.close()
+            await asyncio.sleep(c["after"])
+            for nd, pex in points:
+                if id(pex) not in done:
+                    continue
+                seq_done, t_done = done[id(pex)]
+                prefix = pex.get_prefix()
+                late = [fl for fl in w.net.log if fl.seq > seq_done and fl.origin is nd.raw_endpoint and fl.data[:22] == prefix]
+                if late:
+                    fail("U1", "sends", f"node {nd.idx}: PexCommunity.unload() completed at t={t_done - 1.7e9:.1f}; afterwards the "
+                                        f"node sent {len(late)} packet(s) under the Pex prefix (message ids "
+                                        f"{sorted({fl.data[22] for fl in late})}, first at t={late[0].t - 1.7e9:.1f}); walkers "
+                                        f"registered with the service for it: {walkers[id(pex)]}, peers it knew: "
+                                        f"{had_peers[id(pex)]}")
+                pending = [t for t in pex.get_tasks() if not t.done()]
+                if pending:
+                    fail("U3", "tasks", f"node {nd.idx}: the unloaded PexCommunity still has {len(pending)} pending task(s)")
+                info["nt"] = info["nt"] or had_peers[id(pex)] > 0
+            info["cls"] += "/%dpoints/%s" % (len(points), "unloaded" if done else "kept")
+        finally:
+            for inst in insts:
+                if inst.state_machine_task:
+                    inst.state_machine_task.cancel()
+            await w.close()
+    try:
+        vloop.run(main)
+    finally:
+        if ctx is not None:
+            ctx.case(("pex_retire", c["how"], c["points"], c["meet"], c["after"], c["seed"]), info["nt"], cls=info["cls"],
+                     sample=case)
+
+
 def run_case(ctx: Ctx | None, case: dict) -> None:
+    if "pex_retire" in case:
+        return run_pex_retire_case(ctx, case)
     if "rc_window" in case:
         return run_rc_window_case(ctx, case)
     if "tm_window" in case:
@@ -604,6 +704,19 @@ def _cut_shard(ctx: Ctx, shard: int, nshards: int, per_scenario: int) -> None:
             ctx.violation(v)
 
 
+def _pex_shard(ctx: Ctx, shard: int, nshards: int, deep: int) -> None:
+    jobs = [{"pex_retire": 1, "how": how, "points": points, "meet": meet, "after": 60.0, "seed": seed}
+            for how in range(3) for points in (1, 2, 3) for meet in ((6.0,) if not deep else (0.0, 1.0, 6.0, 30.0))
+            for seed in (range(ctx.seed, ctx.seed + 2) if not deep else range(ctx.seed, ctx.seed + 12))]
+    for i, case in enumerate(jobs):
+        if i % nshards != shard:
+            continue
+        try:
+            run_case(ctx, case)
+        except Violation as v:
+            ctx.violation(v)
+
+
 def _random_shard(ctx: Ctx, shard: int, nshards: int, n_time: int, n_tm: int) -> None:
     from hypothesis import strategies as st
     times = st.fixed_dictionaries({"scenario": st.sampled_from(sorted(capture.SCENARIOS)),
@@ -624,6 +737,7 @@ def _random_shard(ctx: Ctx, shard: int, nshards: int, n_time: int, n_tm: int) ->
 
 def run(ctx: Ctx) -> None:
     shard_run(ctx, _cut_shard, extra=(60 if ctx.quick else 0,))
+    shard_run(ctx, _pex_shard, extra=(0 if ctx.quick else 1,))
     shard_run(ctx, _random_shard, extra=(10, 300) if ctx.quick else (150, 6000))
 
 
